@@ -40,6 +40,7 @@ KNOWN = {"F21-chained-resample-drift": f21}
 
 RATES = [1234, 7919, 8000, 11025, 16000, 22050, 44100, 48000, 96000, 192000, 256000, 93, 99, 7000, 14000, 25000, 50000, 100000, 200000, 250000, 384000]
 _FILES = {}
+MAX_ELEMENTS = 6_000_000  # per derived array (harness memory budget: 16 workers)
 
 
 def wav(rate, channels, frames):
@@ -256,12 +257,16 @@ def check_derive(spec, ctx):
     frac = False
     cur = src
     cur_rate = float(sr)
+    nch = max(1, int(src.sizes.get("channel", 1)))
     for op, target, (w, h) in zip(spec["ops"], spec["targets"], spec["wins"]):
         if cur.sizes.get("time", 0) < 8 or "frequency" in cur.dims:
             break
         first = float(cur.coords["time"].values[0])
         if op == "resample":
             if int(cur.sizes["time"] * target / cur_rate) < 2:
+                continue
+            if cur.sizes["time"] * target / cur_rate * nch > MAX_ELEMENTS:
+                ctx.label("too_large_skipped")  # harness memory budget (215 s at 93 Hz resampled to 192 kHz is 41 M frames)
                 continue
             if (target / cur_rate) != int(target / cur_rate):
                 frac = True
@@ -274,6 +279,9 @@ def check_derive(spec, ctx):
                 frac = True
             if round(w) < 2 or math.ceil(w) > cur.sizes["time"]:
                 ctx.label("window_longer_than_signal_skipped")
+                continue
+            if cur.sizes["time"] / max(1.0, math.floor(h)) * (math.ceil(w) / 2 + 1) * nch > MAX_ELEMENTS:
+                ctx.label("too_large_skipped")
                 continue
             out = ctx.call(spec, f"compute_spectrogram(window={w} samples, hop={h} samples @ {cur_rate} Hz)", audio.compute_spectrogram, cur, window_size=ws, hop_size=hs)
             produced.append((f"compute_spectrogram(window={w}, hop={h} samples)", out, first))
